@@ -107,4 +107,12 @@ func init() {
 	})
 
 	register("ESCt", "temporary", nil, ruleEsc)
+
+	register("MISCt", "temporary", nil, func(p *Prog, r *Report) {
+		ruleValidCoupling(p, r)
+		rulePairSeq(p, r)
+		ruleDecodeSibling(p, r, []string{"mxj.xmlToMapParser", "mxj.xmlSeqToMapParser"})
+		ruleWalkArms(p, r, []string{"mxj.marshalMapToXmlIndent", "mxj.mapToXmlSeqIndent"})
+		ruleAnyXmlList(p, r)
+	})
 }
